@@ -71,7 +71,7 @@ impl Property for C19 {
         "families: point sets of D+1..120 points built from a known basis (generic, exactly planar / collinear / coincident by zeroing stretches, anisotropic up to 1e6, offset up to 1e3 from the origin) with no weights, equal weights c in {0.5,1,2,7} or non-uniform positive weights (max/min up to 100), plus a second isometry for equivariance and a weight scale factor; vector pairs of any length 1e-3..1e3 at angles 1e-6..pi-1e-6, exactly parallel, zero, with optional origin, for the six two-vector frame constructors, iso3_from_xyo, iso3_from_basis, iso2_from_basis; planes from point triples in general position, from point+normal and from surface points. Oracle: defining constraints (mean, orthonormality, ordering, variance, diagonalised scatter, round trip, rank, equivariance, weight-scale invariance; proper rotation with the primary axis exact and the secondary in the right half-plane; points on plane, projection, inversion). Non-trivial: basis not axis-aligned and centre away from the origin (SVD), non-trivial weights, frame inputs farther than 5 degrees from perpendicular. Distinct = distinct canonical JSON."
     }
     fn cases(t: Tier) -> u32 {
-        t.pick(400_000, 10_000_000)
+        t.pick(1_600_000, 10_000_000)
     }
     fn expected_labels() -> Vec<&'static str> {
         vec!["svd3", "svd2", "weights_none", "weights_equal", "weights_nonuniform", "rank_deficient", "frame_xy", "frame_xz", "frame_yz", "frame_yx", "frame_zx", "frame_zy", "frame_degenerate", "xyo", "basis2", "plane_triple", "plane_normal", "equivariance_checked"]
